@@ -830,6 +830,10 @@ func funcType(ft *ast.FuncType) (*Function, error) {
 		if !ok {
 			return nil, fmt.Errorf("unsupported argument type: %s", t)
 		}
+		if len(param.Names) == 0 {
+			// unnamed parameter, e.g. func Build(string)
+			f.Args = append(f.Args, Arg{Name: fmt.Sprintf("arg%d", len(f.Args)), Type: typ})
+		}
 		// support for foo, bar string
 		for _, name := range param.Names {
 			f.Args = append(f.Args, Arg{Name: name.Name, Type: typ})
